@@ -453,7 +453,7 @@ class Gen:
 
     def num(self, m, xs, depth):
         r = self.r
-        if depth <= 0 or r.chance(1, 4):
+        if depth <= 0 or r.chance(1, 4) or not self.profile['num']:
             return self.lin(m, xs) if r.chance(2, 3) else self.num_leaf(m, xs)
         k = r.choice(self.profile['num'])
         self.hit('num:' + k)
@@ -489,6 +489,8 @@ class Gen:
             op = r.choice(self.profile['rel'])
             self.hit('rel:' + op)
             a = self.num(m, xs, depth - 1) if r.chance(1, 3) else self.lin(m, xs, r.rint(1, 2))
+            if a[0] == 'n':
+                a = self.lin(m, xs, 1)             # no constant-vs-constant comparisons (AMPL would fold them)
             return (op, a, ('n', gq(r, -2, 4)))
         k = r.choice(self.profile['log'])
         self.hit('log:' + k)
@@ -497,7 +499,7 @@ class Gen:
         if k == 'not':
             return ('not', self.log(m, xs, depth - 1))
         if k in ('forall', 'exists'):
-            return (k, [self.log(m, xs, depth - 1) for _ in range(r.rint(2, 3))])
+            return (k, [self.log(m, xs, depth - 1) for _ in range(r.rint(3, 4))])    # NL needs >= 3 arguments here
         if k == 'implies':
             return ('implies', self.log(m, xs, depth - 1), self.log(m, xs, depth - 1), self.log(m, xs, depth - 1) if r.chance(1, 2) else ('T',))
         if k == 'alldiff':
@@ -583,11 +585,32 @@ class Gen:
                 pass
         if not m.cons and not m.lcons:
             m.con(None, xs[0] + xs[-1] + 1, {0: F(1), nv - 1: F(1)} if nv > 1 else {0: F(2)})
+        m.has_sos = False
+        if self.profile.get('sos') and r.chance(1, 3):
+            # an SOS1/SOS2 set over fresh non-negative variables (.sosno/.ref suffixes); planted point respects it
+            k = r.rint(2, 4)
+            typ = r.choice([1, 2])
+            js = []
+            for _ in range(k):
+                integer = r.chance(1, 3)
+                js.append(m.var(0, r.rint(1, 4), integer))
+                xs.append(F(0))
+            p = r.below(k)
+            xs[js[p]] = F(1)
+            if typ == 2 and p + 1 < k and r.chance(1, 2):
+                xs[js[p + 1]] = F(1, 2) if not m.vars[js[p + 1]]['int'] else F(1)
+            m.suffixes.append({'name': 'sosno', 'kind': 0, 'float': False, 'vals': {j: (1 if typ == 1 else -1) for j in js}})
+            m.suffixes.append({'name': 'ref', 'kind': 0, 'float': True, 'vals': {j: F(i + 1) for i, j in enumerate(js)}})
+            lin = {j: F(1) for j in js}
+            lin[0] = F(1)
+            m.con(None, sum(xs[j] for j in lin) + 2, lin)
+            m.has_sos = True
+            self.hit('sos%d' % typ)
         return m, xs
 
 
 PROFILES = {
-    'linear': {'num': [], 'rel': [], 'log': [], 'ncons': (1, 4), 'nlcons': (0, 0)},
+    'linear': {'num': [], 'rel': [], 'log': [], 'ncons': (1, 4), 'nlcons': (0, 0), 'sos': True},
     'logic': {'num': [], 'rel': ['le', 'ge', 'lt', 'gt', 'eq', 'ne'], 'log': ['or', 'and', 'not', 'implies', 'iff', 'forall', 'exists'],
               'ncons': (0, 2), 'nlcons': (1, 3), 'depth': 2},
     'expr': {'num': ['abs', 'min', 'max', 'if', 'sum', 'count'], 'rel': ['le', 'ge', 'eq', 'lt'], 'log': ['or', 'and', 'not'],
@@ -595,14 +618,14 @@ PROFILES = {
     'mixed': {'num': ['abs', 'min', 'max', 'if', 'count', 'numberof', 'mul', 'div', 'sum'],
               'rel': ['le', 'ge', 'lt', 'gt', 'eq', 'ne'],
               'log': ['or', 'and', 'not', 'implies', 'iff', 'forall', 'exists', 'alldiff', 'atleast', 'atmost', 'exactly'],
-              'ncons': (0, 3), 'nlcons': (0, 2), 'depth': 2, 'p_nl': (2, 3)},
+              'ncons': (0, 3), 'nlcons': (0, 2), 'depth': 2, 'p_nl': (2, 3), 'sos': True},
 }
 
 ACCEPT_SETS = [
     None,                                                  # default: the four linear types
     'ALL',
     'LinConRange,LinConLE,LinConEQ,LinConGE,QuadConRange,QuadConLE,QuadConEQ,QuadConGE',
-    'LinConRange,LinConLE,LinConEQ,LinConGE,IndicatorLinConLE,IndicatorLinConEQ,IndicatorLinConGE',
+    'LinConRange,LinConLE,LinConEQ,LinConGE,IndicatorLinConLE,IndicatorLinConEQ,IndicatorLinConGE,SOS1Constraint,SOS2Constraint',
     'LinConRange,LinConLE,LinConEQ,LinConGE,AbsConstraint,MaxConstraint,MinConstraint,AndConstraint,OrConstraint,NotConstraint',
     'LinConRange,LinConLE,LinConEQ,LinConGE,QuadConRange,QuadConLE,QuadConEQ,QuadConGE,IndicatorLinConLE,IndicatorLinConEQ,IndicatorLinConGE,'
     'CondLinConLE,CondLinConLT,CondLinConGE,CondLinConGT,CondLinConEQ,OrConstraint,AndConstraint,CountConstraint,IfThenConstraint',
@@ -822,8 +845,10 @@ class Runner:
         return c
 
     def run_cases(self, cases, workers=6):
+        t0 = time.time()
         with ThreadPoolExecutor(max_workers=workers) as ex:
             list(ex.map(self.exec_case, cases))
+        t1 = time.time()
         # model side: one driver process for the whole batch
         ops, spans = [], []
         for c in cases:
@@ -844,6 +869,8 @@ class Runner:
         if ops:
             p = subprocess.run([self.drv], input='\n'.join(ops) + '\n', capture_output=True, text=True)
             out = p.stdout.split('\n')
+            if time.time() - t0 > 20:
+                self.ck.log('slow batch: %d cases, real runs %.1fs, model driver %.1fs' % (len(cases), t1 - t0, time.time() - t1))
             for c, sp in zip(cases, spans):
                 if sp is None:
                     continue
@@ -1034,6 +1061,8 @@ def oracle(c):
     if not (real or ideal):
         return {'expect': False, 'kind': 'mode0', 'detail': None}
     m = c['m']
+    if getattr(m, 'has_sos', False):
+        return None                      # the NL-level evaluator knows nothing about SOS suffixes
     feastol, feastolrel, inttol = fr(ch['feastol']), fr(ch['feastolrel']), fr(ch['inttol'])
     xseen = [fr(t) for t in ch['x']]                  # the vector the real code was given
     if any(v is None or isinstance(v, float) for v in xseen) or xseen != [F(v) for v in c['xs']]:
@@ -1073,6 +1102,61 @@ def oracle(c):
     return {'expect': kind != 'feasible', 'kind': kind, 'detail': detail}
 
 
+def diagnose_unreported(c):
+    """why was an NL-level violation not reported?  recognises the idealistic-pass blind spot: the realistic pass does
+    not test variables+original constraints (bits 1+2 not both set), and the violation shows only as the recomputed
+    result of a ConditionalConstraint lying outside its (fixed) bounds"""
+    f = c['flat']
+    mode = f.chk['mode']
+    if (mode & 3) == 3:
+        return None
+    x = [fr(t) for t in f.chk['x']]
+    hits = []
+    for it in f.items:
+        if it['unused'] or it['con'][0] != 'cond':
+            continue
+        r = it['con'][1]
+        v = f.vars[r]
+        if x[r] < v['lb'] or x[r] > v['ub']:
+            hits.append(f.vars[r]['name'])
+    return hits or None
+
+
+def item_vars(con):
+    k = con[0]
+    if k == 'alg':
+        return con[1]['body'].vars()
+    if k in ('func', 'adef'):
+        f = con[3]
+        if f[0] == 'affine':
+            return [con[1]] + f[1].vars()
+        if f[0] == 'nofc':
+            return [con[1]] + list(f[2])
+        if f[0] == 'nofv':
+            return [con[1], f[1]] + list(f[2])
+        return [con[1]] + list(f[1])
+    if k == 'cond':
+        return [con[1]] + con[3]['body'].vars()
+    if k == 'ind':
+        return [con[1]] + con[3]['body'].vars()
+    if k in ('sos1', 'sos2'):
+        return list(con[1])
+    if k == 'compl':
+        return [con[1]] + con[2].vars()
+    return []
+
+
+def orphaned_refs(f):
+    """names of checkable (not unused) constraints that mention a variable whose defining expression was marked unused
+    during conversion (such variables are fixed to 0 by FixUnusedDefinedVars although the constraint stays checkable)"""
+    orph = {i for i, v in enumerate(f.vars) if v['init'] and v['init']['unused']}
+    return [it['name'] for it in f.items if not it['unused'] and orph & set(item_vars(it['con']))]
+
+
+def ctx_none_items(f):
+    return [it['name'] for it in f.items if not it['unused'] and it['con'][0] in ('func', 'cond') and it['con'][2] == 'none']
+
+
 def int_sig(c, detail):
     """signature for an unreported integrality violation: does every violating variable round to a non-zero integer?"""
     xo = model_point(c['m'], c['xs'])
@@ -1102,11 +1186,12 @@ def run(ck):
     exe = build_solver(ck)
     drv = ck.driver('drv_c07')
     ck.log('harness + driver ready')
+    t0 = time.time()            # the budget is for the correspondence stage
     work = os.path.join(BUILD, 'c07work')
     R = Runner(ck, exe, drv, work)
     rng = Rng(ck.seed * 7919 + 17)
-    nmodels = 36 if ck.tier == 'quick' else 400
-    budget = 75 if ck.tier == 'quick' else 600
+    nmodels = 72 if ck.tier == 'quick' else 900
+    budget = 70 if ck.tier == 'quick' else 600
     stats = {'runs': 0, 'compared': 0, 'unsupported': 0, 'no_check': 0, 'outside_fragment': 0, 'oracle_applied': 0,
              'oracle_expect_report': 0, 'oracle_expect_clean': 0, 'reports_seen': 0, 'code150_seen': 0, 'skipped_seen': 0}
     hist = {'family': {}, 'profile': {}, 'mode_bits': {}, 'labels': {}, 'types': {}, 'accept': {}, 'oracle_kind': {}, 'gen': {},
@@ -1119,7 +1204,25 @@ def run(ck):
     corpus_cases = load_corpus(R)
     batches = []
     if corpus_cases:
-        batches.append(corpus_cases)
+        # corpus points are given for the original variables only: learn the flat model, then extend consistently
+        first = {}
+        for c in corpus_cases:
+            first.setdefault(c['stub'], dict(c, xs=None, objv=None, family='learn', id=c['id'] + 50000))
+        R.run_cases(list(first.values()))
+        ready = []
+        for c in corpus_cases:
+            f = first[c['stub']]['flat']
+            if f is None or not f.supported:
+                continue
+            nv = len(c['m'].vars)
+            x = f.consistent(c['xs'] + [F(0)] * (len(f.vars) - nv))
+            if x is None:
+                continue
+            c['xs'] = x
+            c['objv'] = [b.val(x) for b in f.objbodies]
+            ready.append(c)
+        R.run_cases(ready)
+        batches.append(list(first.values()) + ready)
     while mi < nmodels and time.time() - t0 < budget:
         # ---- a batch of models: learning runs first
         learn = []
@@ -1178,7 +1281,49 @@ def run(ck):
 
 
 def load_corpus(R):
-    return []
+    """small fixed corpus, run first: the two open findings and the tolerance boundary, as hand-made models"""
+    cases = []
+
+    def case(tag, m, prof, xs, opts, fam, objv=None, accept=None):
+        if not hasattr(m, 'has_sos'):
+            m.has_sos = False
+        stub = os.path.join(R.work, tag)
+        if not os.path.exists(stub + '.nl'):
+            m.write(stub)
+        x = [F(xs[m.perm[i]]) for i in range(len(m.vars))]
+        cases.append({'id': 900000 + len(cases), 'stub': stub, 'm': m, 'profile': prof, 'accept': accept, 'base_opts': [],
+                      'opts': opts, 'code': 0, 'family': fam, 'xs': x, 'objv': objv, 'consistent': True, 'objexact': True,
+                      'corpus': True})
+    # 1. integrality: k in [0,10] integer, y continuous; k + y <= 15
+    m1 = nlgen.Model()
+    k = m1.var(0, 10, True, 'k'); y = m1.var(0, 10, False, 'y')
+    m1.con(None, 15, {k: 1, y: 1})
+    for kv in (F(5, 2), F(1, 4), F(3), F(7) + F(1, 1024), F(-1, 4)):
+        for mode in (1, 1023, 515):
+            case('corp_int', m1, 'linear', [kv, F(1)], {'mode': mode, 'inttol': F(1, 2 ** 16), 'fail': mode == 1}, 'corpus-integrality')
+    # 2. tolerance boundary: x + y <= 8, x <= 10
+    m2 = nlgen.Model()
+    x = m2.var(0, 10, False, 'x'); y = m2.var(0, 10, False, 'y')
+    m2.con(None, 8, {x: 1, y: 1})
+    e = F(1, 2 ** 10)
+    for d in (F(0), e, e + F(1, 2 ** 30), e - F(1, 2 ** 30), 2 * e, F(1, 8)):
+        for rel in (F(0), F(1, 2 ** 6), F(1, 2 ** 20)):
+            for fail in (False, True):
+                case('corp_tol', m2, 'linear', [F(3) + d, F(5)], {'mode': 2, 'feastol': e, 'feastolrel': rel, 'fail': fail}, 'corpus-boundary')
+        case('corp_tol', m2, 'linear', [F(10) + d, F(-2) - d], {'mode': 1, 'feastol': e, 'feastolrel': F(0)}, 'corpus-boundary')
+    for t in (F(1), F(1) + F(1, 2 ** 10), F(1) - F(1, 2 ** 10)):
+        # relative boundary: violation = t * feastolrel * |rhs|
+        rel = F(1, 2 ** 6)
+        case('corp_tol', m2, 'linear', [F(3) + t * rel * 8, F(5)], {'mode': 2, 'feastol': F(1, 2 ** 20), 'feastolrel': rel}, 'corpus-boundary')
+    # 3. idealistic pass and a fixed conditional result: not (x >= 5), x + y <= 12
+    m3 = nlgen.Model()
+    x = m3.var(0, 10, False, 'x'); y = m3.var(0, 10, False, 'y')
+    m3.con(None, 12, {x: 1, y: 1})
+    m3.lcon(('not', ('exists', [('ge', ('v', x), ('n', 5)), ('ge', ('v', y), ('n', 7)), ('le', ('+', ('v', x), ('v', y)), ('n', -1))])))
+    for xv in (F(7), F(3), F(5), F(19, 4)):
+        for mode in (96, 3, 99, 515, 1023 - 12 - 384):
+            case('corp_cond', m3, 'logic', [xv, F(1)], {'mode': mode, 'feastolrel': F(0)}, 'corpus-cond-ideal')
+    return cases
 
 
 def evaluate(ck, c, stats, hist, corr_bad, oracle_bad, distinct):
@@ -1270,6 +1415,22 @@ def finish(ck, proof_ok, failing, stats, hist, corr_bad, oracle_bad, distinct):
         elif orc['kind'] == 'fail-code':
             sig = 'fail-code:%s' % ('missing-150' if orc['expect'] else 'spurious-150')
             what = 'sol:chk:fail: %s' % orc['detail']
+        elif orc['kind'] == 'violated' and orc['expect'] and diagnose_unreported(c):
+            sig = 'ideal-pass:cond-result-bounds:unreported'
+            what = ('violated model (%s) not reported by the idealistic pass (mode %d): the recomputed result(s) %s of '
+                    'ConditionalConstraint(s) lie outside their bounds, but ConditionalConstraint::ComputeViolation has no '
+                    'recomp_vals() branch and auxiliary bounds are not tested on recomputed values'
+                    % (str(orc['detail'])[:120], c['flat'].chk['mode'], diagnose_unreported(c)))
+        elif orc['kind'] == 'feasible' and not orc['expect'] and ctx_none_items(c['flat']):
+            sig = 'spurious-report:ctx-none'
+            what = ('the point satisfies the original model exactly, yet the check reports:\n%s\nfunctional constraint(s) %s have '
+                    'context CTX_NONE (their result is not used anywhere) and ComputeViolation returns {INFINITY, 0} for them'
+                    % (obs['text'], ctx_none_items(c['flat'])[:4]))
+        elif orc['kind'] == 'feasible' and not orc['expect'] and orphaned_refs(c['flat']):
+            sig = 'spurious-report:orphaned-result-var'
+            what = ('the point satisfies the original model exactly, yet the check reports:\n%s\nconstraint(s) %s are still '
+                    'checked (reformulated, not unused) but mention a result variable whose own defining expression was marked '
+                    'unused (and fixed to 0) when an enclosing implication was redefined' % (obs['text'], orphaned_refs(c['flat'])[:4]))
         else:
             sig = 'oracle:%s:%s' % (orc['kind'], 'unreported' if orc['expect'] else 'spurious-report')
             what = 'NL-level oracle says %s (%s) but the real check %s; profile %s family %s mode %d' % (
